@@ -30,7 +30,7 @@ func init() {
 		ID:      "C19",
 		Flavour: "trace",
 		Rule: "cases = (point value and representation, list of scalars): points G, O in several forms, λ-scaled G, small-x, hashed and random points; scalars 0 (reference), 2, 3, n-1, n-2, 2^255, every 2^i, 2^255|2^i, " +
-			"sparse, dense, runs of leading/trailing zeros of every length, alternating, stored-form adjacent to One(), Montgomery-structured, PRNG (>=50% with bit 255 set); 1 (documented shortcut) and nil are excluded. " +
+			"sparse, dense, runs of leading/trailing zeros of every length, alternating, stored-form adjacent to One(), Montgomery-structured, PRNG (>=50% with bit 255 set); 1 (documented shortcut) and nil are excluded; every fourth scalar is multiplied twice in a row on identical inputs (a memo of the last result would shorten the second run). " +
 			"Monitor: an AST rewriter puts a probe at the entry of every function and every nested block of internal/field and internal/scalar (current working tree); the recorded probe sequence between entry and return of Multiply " +
 			"must equal, in length and content, the sequence for the reference scalar on the same point. evaluations = traced multiplications; non-trivial = scalar not in {0,1}; distinct by (point, representation, scalar).",
 		Assume:   []string{"granularity is function/block entry inside internal/field and internal/scalar; not a timing or micro-architectural claim"},
@@ -38,7 +38,7 @@ func init() {
 		Generate: c19Generate,
 		Run:      c19Run,
 		Require: func(string) map[string]int64 {
-			return map[string]int64{"traces": 2000, "points": 20, "k:bit255": 500, "k:pow2": 256, "trace-events-min-ok": 20, "P=O": 2, "repr:scaled": 5}
+			return map[string]int64{"traces": 2000, "points": 20, "k:bit255": 500, "k:pow2": 256, "trace-events-min-ok": 20, "P=O": 2, "repr:scaled": 5, "repeated-immediately": 300}
 		},
 	})
 }
@@ -195,13 +195,20 @@ func c19Run(c *mon.Ctx, csAny any) {
 	c.Count("trace-events-min-ok")
 	c.CountN("trace-events-total", int64(refN))
 
-	for _, kh := range cs.Ks {
+	for ki, kh := range cs.Ks {
 		k := mon.BigH(kh)
 		if k.Cmp(big.NewInt(1)) == 0 {
 			continue
 		}
 
 		n, h, seq, pan, pv := c19Trace(cs.E.Build(), mon.Scal(k))
+
+		if ki%4 == 0 && !pan && n == refN && h == refH {
+			// the same (point, scalar) again, immediately: a "last result" memo would make the second run shorter
+			c.Count("repeated-immediately")
+			c.Eval(1)
+			n, h, seq, pan, pv = c19Trace(cs.E.Build(), mon.Scal(k))
+		}
 
 		c.Eval(1)
 		c.Count("traces")
